@@ -655,3 +655,37 @@ def rule_union_writer_keeps_handlers(model: Model, rule_id: str = 'C18-R8') -> R
                        "a value under a union is serialised by a converter built without the handlers of the call: custom= stops applying "
                        "inside Optional[...] / Union[...] / ValueOrList[...] on output, although it applies on input")
     return r
+
+
+STREAM_OK = {'reconfigure', 'readable', 'writable', 'closed', 'buffer', 'seekable', 'encoding', 'newlines', 'name', 'mode', 'isatty', 'fileno'}
+
+
+def rule_stream_untouched(model: Model, rule_id: str = 'C19-R6') -> RuleResult:
+    """C19: position and content of a caller's stream belong to the caller: the library only checks it and reconfigures its encoding."""
+    r = RuleResult(rule_id, "the file helpers call nothing on a caller's stream that moves its position or changes its content "
+                            "(no seek / truncate / write / flush / close)", floor=2)
+    m = model.module('pane.io')
+    for fq in ('pane.io.open_file', 'pane.io._validate_file'):
+        f = model.functions.get(fq)
+        if f is None:
+            if fq.endswith('open_file'):
+                raise AnalysisError("pane.io.open_file not found")
+            continue
+        r.instances += 1
+        r.analysed.add(fq)
+        stream = f.params[0]
+        bad = []
+        for x in ast.walk(f.node):
+            if isinstance(x, ast.Attribute) and isinstance(x.value, ast.Name) and x.value.id == stream and isinstance(x.ctx, ast.Load):
+                if x.attr not in STREAM_OK:
+                    bad.append((x, x.attr))
+        r.sample({fq: sorted({a for _x, a in bad}) or 'only checks / reconfigure'})
+        if bad:
+            for (x, a) in bad:
+                r.fail(fq, f"{stream}.{a}", f.loc(x),
+                       "the caller's stream is rewound, truncated, written to or closed by the helper: several documents written one after "
+                       "another to one stream overwrite each other, and content the caller wrote before is lost")
+        else:
+            r.ok()
+    _ = m
+    return r
